@@ -366,3 +366,17 @@ func TestC19Regress(t *testing.T) {
 		}
 	}
 }
+
+// F6(b): a stored-field visit issued from inside the visitor of another block.
+func TestC09Regress(t *testing.T) {
+	p := BlocksParams{N: 300, TermPer: 1, ValPos: []int{0, 5, 43}, ValLen: []int{7, 12, 20}, TwoVals: true, LastShort: true}
+	sc := &Scenario{Schema: map[string]int{}, Norm: normFns[0]}
+	b := p.Batch(sc)
+	exp := Expect(b, normFns[0].F)
+	seg := mustBuild(t, b, 1025)
+	plan := &nestPlan{kind: 0, doc: 0, at: 0, inner: []*nestPlan{{kind: 0, doc: 299}, {kind: 0, doc: 133, at: 0, inner: []*nestPlan{{kind: 0, doc: 0}}}}}
+	ns := &nestStats{}
+	if err := safely("F6b", func() error { return runNest(seg, exp, plan, 0, ns) }); err != nil {
+		t.Fatalf("F6(b): %v", err)
+	}
+}
